@@ -7,6 +7,7 @@ mkdir -p "$ROOT/work" "$ROOT/evidence" "$ROOT/replay"
 cd "$ROOT/harness"
 cp -f /repo/go.sum go.sum
 ./curves/gen.sh
+for g in ./c*/gen.sh; do [ -x "$g" ] && "$g"; done
 go build -tags verif ./...
 go vet -tags verif ./... >/dev/null 2>&1 || true
 go test -tags verif -count=1 -run '^$' ./... >/dev/null
